@@ -340,16 +340,17 @@ func (c *oCache) TryRemove(id string) (ok bool, err error) {
 	closed, err := e.value.TryClose(c.ttl)
 	if err != nil {
 		c.log.With("object_id", e.id).Warnf("try remove err: %v", err)
-		return closed, err
 	}
 
+	// the entry must leave the closing state even if TryClose returned an error,
+	// otherwise every later Get of this id waits for the close forever
 	if !closed {
 		e.setActive(true)
-		return false, nil
+		return false, err
 	}
 
 	c.closeAndDelete(e)
-	return true, nil
+	return true, err
 }
 
 func (c *oCache) DoLockedIfNotExists(id string, action func() error) error {
